@@ -355,10 +355,32 @@ class WalletH:
         return self.loop.run(coro)
 
     # -- teardown -----------------------------------------------------------------------------
+    def _abandon_tasks(self):
+        """Close every unfinished coroutine *now*, while this loop is still the current one.  Left to the
+        garbage collector they are closed at an arbitrary later moment - inside the next execution - and
+        lbry's error paths (`except Exception: await ledger.release_tx(tx)`) then post executor jobs on
+        whatever loop is current at that time (observed: replay divergence in C14)."""
+        import asyncio
+        for t in list(asyncio.all_tasks(self.loop)):
+            t._log_destroy_pending = False
+            coro = t.get_coro()
+            for _ in range(8):
+                try:
+                    coro.close()
+                    break
+                except RuntimeError:      # "coroutine ignored GeneratorExit": it awaited in a handler
+                    continue
+                except BaseException:     # noqa - whatever the abandoned coroutine raises while dying
+                    break
+
     def close(self):
         if self.closed:
             return
         self.closed = True
+        try:
+            self._abandon_tasks()
+        except Exception:   # noqa
+            pass
         try:
             db = getattr(getattr(self, 'ledger', None), 'db', None)
             conn = getattr(getattr(db, 'db', None), 'writer_connection', None)
